@@ -6,6 +6,7 @@ mod c02;
 mod c04;
 mod c12;
 mod c13;
+mod gen_builders;
 mod util;
 
 use vcore::report::Run;
